@@ -189,6 +189,12 @@ impl FromStr for Id {
             return Err(DecodeIdError::OddNumberOfCharacters);
         }
 
+        // Only ASCII hex digits: `from_str_radix` would accept a leading `+`, and slicing
+        // a multi-byte character at a non char boundary panics.
+        if let Some(c) = s.chars().find(|c| !c.is_ascii_hexdigit()) {
+            return Err(DecodeIdError::InvalidHexCharacter(c.to_string()));
+        }
+
         let mut bytes = Vec::with_capacity(s.len() / 2);
 
         for i in 0..s.len() / 2 {
